@@ -253,22 +253,44 @@ fn unsub_race_create(pipe: &'static str) -> Body {
   Box::new(move || {
     let hs: Arc<std::sync::Mutex<Vec<vf::JoinHandle<()>>>> = Arc::new(std::sync::Mutex::new(vec![]));
     let hs2 = hs.clone();
+    let two = pipe == "create2";
     let src: Obs = Observable::create(move |ob: Observer<'static, i64>| {
+      let ob2 = ob.clone();
       let h = spawn(move || {
-        for x in [1i64, 2, 3] {
+        for x in if two { vec![1i64] } else { vec![1i64, 2, 3] } {
           mark(&format!("emit+ p1 n {}", x));
           ob.next(x);
           mark(&format!("emit- p1 n {}", x));
         }
+        if two {
+          // a second thread shares the observer: this one completes while the other still emits
+          mark("emit+ p1 c 0");
+          ob.complete();
+          mark("emit- p1 c 0");
+        }
       });
       hs2.lock().unwrap().push(h);
+      if two {
+        let h = spawn(move || {
+          for x in [11i64, 12] {
+            mark(&format!("emit+ p2 n {}", x));
+            ob2.next(x);
+            mark(&format!("emit- p2 n {}", x));
+          }
+        });
+        hs2.lock().unwrap().push(h);
+      }
     });
     let o: Obs = match pipe {
       "create_map" => src.map(|x: i64| x),
       "create_tap" => src.tap(|_x: i64| {}, |_e| {}, || {}),
       _ => src,
     };
-    meta(serde_json::json!({"kind": "unsub_race", "pipe": pipe, "observers": ["A"], "sources": {"p1": [1, 2, 3]}}));
+    if two {
+      meta(serde_json::json!({"kind": "unsub_race", "pipe": pipe, "observers": ["A"], "sources": {"p1": [1], "p2": [11, 12]}}));
+    } else {
+      meta(serde_json::json!({"kind": "unsub_race", "pipe": pipe, "observers": ["A"], "sources": {"p1": [1, 2, 3]}}));
+    }
     let sub = subscribe_rec(&o, "A");
     mark("call+ unsubscribe A");
     sub.unsubscribe();
@@ -704,7 +726,7 @@ pub fn catalogue() -> Vec<(String, Vec<&'static str>)> {
     v.push((format!("subj_join:{}:1", k), vec!["C12", "C07"]));
     v.push((format!("subj_join:{}:2", k), vec!["C12", "C07"]));
   }
-  for p in ["none", "map", "take", "observe_on", "map_observe_on", "create", "create_map", "create_tap"] {
+  for p in ["none", "map", "take", "observe_on", "map_observe_on", "create", "create_map", "create_tap", "create2"] {
     v.push((format!("unsub_race:{}", p), vec!["C05", "C07"]));
   }
   for var in ["observe_on", "observe_on_map", "map_observe_on", "observe_on_x2", "observe_on_take", "subscribe_on", "subscribe_on_map", "subscribe_on_observe_on"] {
